@@ -4,7 +4,7 @@
     what the eager reference computes for trees of ARBITRARY height. *)
 From Coq Require Import List NArith.
 From MOC.Base Require Import RangeSet.
-From MOC.Model Require Import Qty Ops1D Expr LazyOps.
+From MOC.Model Require Import Qty Ops1D Expr LazyOps LazyXor.
 Import ListNotations.
 Open Scope N_scope.
 
@@ -45,6 +45,14 @@ Theorem C04_streaming_minus_equals_eager : forall hl hr ub A B, Valid ub A -> Va
   minus_new hl hr A B = minus ub A B.
 Proof. exact minus_new_eq_spec. Qed.
 
+Theorem C04_streaming_xor_equals_eager : forall ub A B, Valid ub A -> Valid ub B ->
+  xor_new A B = xor ub A B.
+Proof. exact xor_new_eq_spec. Qed.
+
+Theorem C04_xor_size_hint_sound : forall fuel A B,
+  (length (xor_f fuel A B) <= length A + length B)%nat.
+Proof. exact xor_f_length. Qed.
+
 (** hints never lie, at EVERY state of the operators (state = look-ahead heads + what remains
     of the two inputs): the advertised upper bounds 1 + n1 + n2 (and) and 2 + n1 + n2 (or,
     minus; the repaired code) are never exceeded by what is then yielded ... *)
@@ -80,7 +88,8 @@ Example C04_nonvacuous_streaming :
   and_new true true [(0, 5); (8, 12)] [(3, 9); (11, 20)] = [(3, 5); (8, 9); (11, 12)] /\
   or_new true [(10, 12)] [(0, 5); (7, 9)] = [(0, 5); (7, 9); (10, 12)] /\
   or_new false [(0, 5); (8, 12)] [(5, 8); (20, 30)] = [(0, 12); (20, 30)] /\
-  minus_new false false [(0, 10); (20, 30)] [(2, 4); (8, 25)] = [(0, 2); (4, 8); (25, 30)].
+  minus_new false false [(0, 10); (20, 30)] [(2, 4); (8, 25)] = [(0, 2); (4, 8); (25, 30)] /\
+  xor_new [(0, 5); (7, 10)] [(5, 7); (9, 12)] = [(0, 9); (10, 12)].
 Proof. repeat split; vm_compute; reflexivity. Qed.
 
 Print Assumptions C04_eager_reference_correct.
@@ -88,6 +97,8 @@ Print Assumptions C04_pipeline_output_determined.
 Print Assumptions C04_streaming_and_equals_eager.
 Print Assumptions C04_streaming_or_equals_eager.
 Print Assumptions C04_streaming_minus_equals_eager.
+Print Assumptions C04_streaming_xor_equals_eager.
+Print Assumptions C04_xor_size_hint_sound.
 Print Assumptions C04_and_size_hint_sound.
 Print Assumptions C04_or_size_hint_sound.
 Print Assumptions C04_minus_size_hint_sound.
